@@ -21,6 +21,9 @@ PROGRAMS = [
     "class E(Exception):\n    pass\ndef h():\n    try:\n        raise E('x')\n    except E:\n        a = 1\n        b = 2\n        raise\nh()\n",
     "with open.__class__ and memoryview(b'a') as m:\n    t = m[5]\n",
     "for i in range(3):\n    if i == 2:\n        v = None + i\n",
+    # a failure 9 call levels deep, raised on its own line
+    "".join("def f%d(n):\n    return f%d(n)\n" % (i, i + 1) for i in range(9)) + "def f9(n):\n    k = n\n    return k / 0\nf0(1)\n",
+    "def rec(n):\n    if n == 0:\n        return [][0]\n    return rec(n - 1)\nrec(12)\n",
 ]
 
 
@@ -38,9 +41,9 @@ def _cpython_line(code):
     return None, None
 
 
-def locate(k0: bool, k1: bool, k2: bool, as_call: bool) -> bool:
+def locate(k0: bool, k1: bool, k2: bool, k3: bool, as_call: bool) -> bool:
     """
-    run() on a failing program (menu of 8: plain failure, failure in a called function, inside try/finally, re-raised
+    run() on a failing program (menu of 10, incl. failures 9 and 13 call levels deep: plain failure, failure in a called function, inside try/finally, re-raised
     from an except block, in a with block, in a loop): one runtime feedback whose location.line is the line CPython's
     traceback gives for the innermost student frame; also when the failing code is reached through call().
 
@@ -49,7 +52,9 @@ def locate(k0: bool, k1: bool, k2: bool, as_call: bool) -> bool:
     """
     if tick():
         return True
-    k = bits(k0, k1, k2)
+    k = bits(k0, k1, k2, k3)
+    if k >= len(PROGRAMS):
+        return True
     with NoTracing():
         code = PROGRAMS[k]
         name, line = _cpython_line(code)
